@@ -90,14 +90,15 @@ SatKind(s)  == IF s = "-1" THEN "0" ELSE IF s \in KindOor THEN "65535" ELSE s
 (* tag values: character class x spelling.  Same maps a spelling to the value it denotes. *)
 Vals == {"plain", "empty", "hex1", "hex2", "space", "quote", "quote_end", "bslash", "bslash_end",
          "nl", "tab", "cr", "bs", "ff", "ctl_u", "nul_u", "slash_lit", "slash_esc",
-         "u2_lit", "u2_esc", "u2_ESC", "u3_lit", "u3_esc", "u4_lit", "del_lit", "brackets", "uplain"}
+         "u2_lit", "u2_esc", "u2_ESC", "u3_lit", "u3_esc", "u4_lit", "p2_lit", "p14_lit", "p16_lit", "del_lit", "brackets", "uplain"}
 CtlVals == {"c00", "c01", "c02", "c03", "c04", "c05", "c06", "c07", "c08", "c09", "c0a", "c0b", "c0c", "c0d", "c0e",
             "c0f", "c10", "c11", "c12", "c13", "c14", "c15", "c16", "c17", "c18", "c19", "c1a", "c1b", "c1c", "c1d",
             "c1e", "c1f"}                    \* every control character, spelled \u00XX
-MayVals == {"u4_sur"}                        \* surrogate-pair spelling: outside the must-domain
+MayVals == {"u4_sur", "p2_sur", "p14_sur", "p16_sur"}   \* (planes 1, 2, 14, 16)
+\*                       \* surrogate-pair spelling: outside the must-domain
 AllVals == Vals \cup CtlVals \cup MayVals
 Char(v) == CASE v = "uplain" -> "plain" [] v = "slash_esc" -> "slash_lit" [] v \in {"u2_esc", "u2_ESC"} -> "u2_lit"
-             [] v = "u3_esc" -> "u3_lit" [] v = "u4_sur" -> "u4_lit"
+             [] v = "u3_esc" -> "u3_lit" [] v = "u4_sur" -> "u4_lit" [] v = "p2_sur" -> "p2_lit" [] v = "p14_sur" -> "p14_lit" [] v = "p16_sur" -> "p16_lit"
              [] v = "nl" -> "c0a" [] v = "tab" -> "c09" [] v = "cr" -> "c0d" [] v = "bs" -> "c08" [] v = "ff" -> "c0c"
              [] v = "ctl_u" -> "c01" [] v = "nul_u" -> "c00" [] OTHER -> v
 Chars(vs) == IF Len(vs) = 0 THEN <<>> ELSE [i \in 1..Len(vs) |-> Char(vs[i])]
@@ -113,7 +114,7 @@ UnkValTypes == <<1, 7, 8, 10, 14, 16, 19, 23>>           \* one shape per JSON t
 WsClasses == <<"sp", "tab", "nl", "cr", "mix">>
 
 (* ------------------------------ the acceptor ---------------------------- *)
-Acc0 == [seen |-> {}, letters |-> {}, dup |-> FALSE, may |-> FALSE, oor |-> FALSE,
+Acc0 == [seen |-> {}, letters |-> {}, dup |-> FALSE, may |-> FALSE, sur |-> FALSE, oor |-> FALSE,
          ids |-> <<>>, authors |-> <<>>, kinds |-> <<>>, tags |-> {},
          since |-> "0", until |-> "u64max", limit |-> "u32max"]      \* defaults of absent members
 
@@ -133,13 +134,15 @@ Step(a, m) ==
   CASE m.k = "unk" -> [a EXCEPT !.may = @ \/ (m.key \in MayKeys)]      \* any value shape: skipped
     [] m.k = "tag" -> IF m.l \in a.letters THEN [a EXCEPT !.dup = TRUE]
                       ELSE [a EXCEPT !.letters = @ \cup {m.l}, !.tags = @ \cup {<<m.l, Chars(m.v)>>},
-                                     !.may = @ \/ AnyIn(m.v, MayVals)]
+                                     !.sur = @ \/ AnyIn(m.v, MayVals)]
     [] OTHER       -> IF m.k \in a.seen THEN [a EXCEPT !.dup = TRUE] ELSE StepNamed(a, m)
 
 Run(mem) == FoldLeft(Step, Acc0, mem)
 
 Expect(d) == LET a == Run(d.mem) IN
-             IF a.dup \/ a.may THEN "may" ELSE IF a.oor THEN "reject_or_saturate" ELSE "accept"
+             IF a.dup \/ a.may \/ (a.sur /\ a.oor) THEN "may"
+             ELSE IF a.sur THEN "may_exact"        \* a value spelled with an escaped surrogate pair: may be refused; if accepted, it denotes Den(d)
+             ELSE IF a.oor THEN "reject_or_saturate" ELSE "accept"
 
 (* the denoted filter: lists in document order, tag constraints as a SET of <<letter, values>>,
    out-of-range integers at their saturation value (the only value an accepting parser may give) *)
@@ -304,7 +307,7 @@ MemOK(m) == /\ m.k \in NamedSet \cup {"tag", "unk"}
             /\ m.k = "tag" => \A i \in 1..Len(m.v) : m.v[i] \in AllVals
 TypeOK == /\ \A i \in 1..Len(doc.mem) : MemOK(doc.mem[i])
           /\ doc.ws[1] \in -2..(NTok(doc.mem) - 1)
-          /\ Expect(doc) \in {"accept", "reject_or_saturate", "may"}
+          /\ Expect(doc) \in {"accept", "reject_or_saturate", "may", "may_exact"}
 
 (* acceptance and meaning never depend on member order, whitespace or unknown members *)
 OrderIndependent   == Same(doc, [doc EXCEPT !.mem = Sorted(doc.mem)])
